@@ -10,31 +10,31 @@ CHECKS = {
  "C01": ("seqx", "DESIGN.md §4 E1, §5 C01",
    "bounded-exhaustive enumeration of RFC 6902 operation sequences on the real code vs. a reference evaluator",
    "Every operation sequence up to the stated depth over an alphabet rebuilt from the current reference state (all resolvable pointers, near-misses, interior negative indices, 8 value shapes + an 80-byte value, 6 operations; from the second operation on also probes for stale internal state: the starting document's values and locations) is executed through DecodePatch+ApplyWithOptions on 15 curated documents with SupportNegativeIndices on and off and the package defaults set to the opposite, and compared with an independent RFC 6902/6901 evaluator through an independent literal-preserving JSON reader. Plus a mini depth-3 phase, a package-defaults phase through Apply and ApplyIndent, and a scale phase (40-member object, 600- and 260-element arrays, 14-level document). Exhaustive within the bound; nothing sampled.",
-   T+"Bounds: depth 2 (+ a mini depth-3 phase) quick; thorough adds a depth-3 phase on 4 core documents with reduced 2nd/3rd alphabets (256 M sequences, 13 min); data outside the alphabets is covered only by the one-representative-per-branch argument (DESIGN section 7 shows where that failed and what was added)."),
+   T+"Bounds: depth 2 (+ a mini depth-3 phase) quick; thorough adds a depth-3 phase on 4 core documents with reduced 2nd/3rd alphabets (256 M sequences, 13 min); data outside the alphabets is covered only by the one-representative-per-branch argument (DESIGN section 7 shows where that failed and what was added). Size sweeps (DESIGN section 3): string / name / number-literal documents of every length 0..130 and around 256, 1024, 4096 bytes to depth 2; objects of n members and arrays of n elements around 8..256 to depth 3; a depth-4 micro phase on one document."),
  "C02": ("mergex", "DESIGN.md §4 E2, §5 C02",
    "exhaustive enumeration of (document, merge patch) edges over value families vs. RFC 7396 pseudo-code",
    "All edges D x P over enumerated value families (every JSON value of bounded depth/width over a small name and scalar alphabet, incl. type changes at depth 3 and nulls inside arrays) are run through MergePatch and compared with the RFC 7396 pseudo-code on independent trees; documents and patches are also fed in reordered / whitespace / escaped spellings.",
-   T+"Bounds: value families V1..V4 (names a,b,c; arrays <= 3 elements; depth <= 3). Built in the shim flavour: every call also runs under every rotation of each map iteration inside the library (12 range sites rewritten at build time); an outcome that depends on the order is a violation."),
+   T+"Bounds: value families V1..V4 (names a,b,c; arrays <= 3 elements; depth <= 3). Built in the shim flavour: every call also runs under every rotation of each map iteration inside the library (12 range sites rewritten at build time); an outcome that depends on the order is a violation. Size sweeps (DESIGN section 3): clusters on string length (0..130, around 256..65536), member count and array length (0..70, around 128..1024) and nesting (1..70, around 100..1002): all ordered pairs inside each cluster; maps with more than 8 entries get rotations 1, 2, n/2, n-1 only."),
  "C03": ("mergex", "DESIGN.md §4 E2, §5 C03",
    "exhaustive enumeration of ordered pairs (A,B) with round-trip and minimality oracle",
    "CreateMergePatch is run on all ordered pairs of objects of the value family (plus numbers beyond float64 precision), pairs of arrays of objects, and all pairs of other roots; oracle: success, {} iff equal, every mentioned path differs, removed => null, values are B's literals, RFC and library round trip when B has no null member, rejection of wrong-shaped roots.",
-   T+"Bounds: objects of V2 (quick) / V3 (thorough)."),
+   T+"Bounds: objects of V2 (quick) / V3 (thorough). Size sweeps (DESIGN section 3): the same clusters, all ordered pairs inside each; plus pairs of objects holding float64 neighbours (one unit in the last place apart)."),
  "C04": ("bytex+seqx", "DESIGN.md §4 E3 bytex(b), §5 C04",
    "exhaustive enumeration of all short byte strings into every []byte parameter, and of out-of-domain operation sequences under every option combination, on both packages; oracle: returns without panic",
    "Complements the other checks (each of which reports panics inside its own domain) with what they exclude: every string over a 16-symbol alphabet up to length 4/5 in every []byte parameter of both packages; all sequences of <= 2 operations containing an out-of-domain operation (empty tokens, non-canonical/overflowing indices, bad escapes, '' as destination, root replaced by null/scalar, test without value) under every combination of the four ApplyOptions booleans and three limits; 10000/10001-deep nesting; EnsurePathExistsOnAdd indices up to 10^4. A hang is a call not returning within a 30 s watchdog.",
-   T+"'Never hangs' is decided as 'returns within the watchdog'. An unrecoverable crash of the harness process (stack overflow, out of memory) is reported by the driver as a failed run, not as silence."),
+   T+"'Never hangs' is decided as 'returns within the watchdog'. An unrecoverable crash of the harness process (stack overflow, out of memory) is reported by the driver as a failed run, not as silence. Size sweeps (DESIGN section 3): the string / width / length documents through Apply (sequences <= 2) and every cluster pair through all four merge functions, both packages."),
  "C05": ("seqx+mergex", "DESIGN.md §4 E1/E2, §5 C05",
    "C01's enumeration judged with ordered, literal-exact equality, plus all merge edges judged for member order",
    "The reference evaluator tracks member order exactly as the statement prescribes; every in-domain sequence (incl. the empty patch) must yield the same members in the same order with byte-identical number literals (documents carry 1.0, 1e400, -0, 23-digit integers). MergePatch edges: survivors lead in document order, literals untouched.",
-   T+"Bounds as C01 / C02."),
+   T+"Bounds as C01 / C02. Size sweeps as C01 (depth 2)."),
  "C06": ("mergex+bytex", "DESIGN.md §4 E2/E3, §5 C06",
    "exhaustive enumeration of ordered pairs of values x spellings, and of all short byte strings, vs. reference structural equality",
    "Equal is compared with reference structural equality on all ordered pairs of the value family, each value also reordered, whitespace-padded and \\u-escaped (null roots, nulls in arrays, array vs null included); agreement with an equivalence relation on the whole set yields reflexivity/symmetry/transitivity there. Every string over 16 symbols up to length 4/5 against {itself, {}, [], {\"a\":1}, null}: malformed => false.",
-   T+"Numerically equal but differently spelled numbers are outside the stated domain (DontCare)."),
+   T+"Numerically equal but differently spelled numbers are outside the stated domain (DontCare). Size sweeps (DESIGN section 3): the same clusters in every spelling; float64 neighbours; on 31 texts with repeated member names (no value oracle) reflexivity, symmetry and transitivity are checked directly over all pairs and triples."),
  "C07": ("mergex", "DESIGN.md §4 E2, §5 C07",
    "exhaustive enumeration of triples (D,P1,P2) restricted by the compatibility predicate; composition law through the reference merge and through the library's own",
    "For every pair of object patches of the family satisfying the stated compatibility condition (computed by the reference) MergeMergePatches is run once and the result applied, with the RFC reference, to every document of the document family: it must equal applying P1 then P2. The same law is checked through the library's MergePatch on a sub-family; non-object P2 must come back verbatim.",
-   T+"Bounds: V2 objects (quick) / V3 objects (thorough) x ~60 documents."),
+   T+"Bounds: V2 objects (quick) / V3 objects (thorough) x ~60 documents. Size sweeps (DESIGN section 3): all compatible triples inside the clusters next to 32, 64, 128, 256 (thorough also 1024)."),
  "C08": ("seqx", "DESIGN.md §4 E1, §5 C08",
    "bounded-exhaustive enumeration of failing operation sequences under cause-changing option combinations; errors.Is/As class vs. reference cause; one-step extension invariance",
    "Every failing sequence up to depth 2 under 10 option combinations is judged: nil document, non-nil error, ErrTestFailed iff the reference cause is an unequal test, *AccumulatedCopySizeError iff the copy limit, ErrMissing for absent members / unreachable parents; each failing prefix is re-run with further operations appended and must give the identical outcome.",
@@ -42,7 +42,7 @@ CHECKS = {
  "C11": ("decodex", "DESIGN.md §4 decodex, §5 C11",
    "systematic enumeration of all single and pairwise member mutations of valid operations, plus all short byte strings, vs. an acceptance predicate transcribed from the statement",
    "About 12 000 patch texts (all single and all pairs - thorough: triples - of delete / retype / rename-by-case / escape / duplicate mutations on one valid operation per kind, in three positions; element- and root-type changes) and every 16-symbol string up to length 4/5 are fed to DecodePatch; accept/reject must equal the reference predicate; accepted patches have Kind/Path/From/ValueInterface compared with independently decoded members.",
-   T+"Conflicting duplicate members and the text null are outside the stated domain."),
+   T+"Conflicting duplicate members and the text null are outside the stated domain. Size sweeps (DESIGN section 3): patches of every length 0..40 and around 64..1024 operations with a defective operation first, in the middle and in each of the last four places; texts padded to 4 KiB / 64 KiB / 1 MiB +-1; pointers and values of 63..4097 bytes."),
  "C12": ("seqx", "DESIGN.md §4 E1, §5 C12",
    "bounded-exhaustive enumeration of sequences containing copy operations x limits at, below and above every reference running total x EscapeHTML, in three configurations (v5 option, v5 package default, legacy global)",
    "The reference computes the running copied-bytes total after every copy (canonical compact spelling under the current escaping); each sequence is re-run under limits {1, T-1, T, T+1, 2^40} for every prefix total T (package-level configurations: every limit 0..N): *AccumulatedCopySizeError exactly at the first copy whose total exceeds the limit, never otherwise, nil document, 0 disables.",
@@ -50,7 +50,7 @@ CHECKS = {
  "C13": ("seqx", "DESIGN.md §4 E1, §5 C13",
    "bounded-exhaustive enumeration with the option on; reference comparison plus differential oracle on the real code",
    "With the option on (negatives on/off) every sequence to depth 2/3 is judged against the reference and differentially: Apply(on, P) must equal Apply(off, P minus the removes the reference marks skipped) in bytes or in error.",
-   T+"Bad index tokens, remove of '' and negative tokens with negatives off are outside the stated domain."),
+   T+"Bad index tokens, remove of '' and negative tokens with negatives off are outside the stated domain. Size sweeps (DESIGN section 3): objects of n members and arrays of n elements at 0..2 and around 8..128 to depth 3 (255..257, 1024 to depth 2) with an alphabet of skipped removes and a created-then-removed member."),
  "C14": ("seqx", "DESIGN.md §4 E1, §5 C14",
    "exhaustive enumeration of add paths of 1..L tokens over a token alphabet, followed by every further operation; reference ensure+add with ordered equality, path lookup, plain-add agreement",
    "Every add path of up to 3 (thorough 4) tokens over {a, b, 'a/b', 'm~n', 0, 1, 2} ('-' last) is applied with the option on to documents in which every prefix length already exists, followed by every operation of Sigma(D); oracle: reference result with ordered equality (frame condition), the value is found at the path, and equality with plain add wherever plain add succeeds.",
@@ -58,23 +58,23 @@ CHECKS = {
  "C15": ("seqx+mergex", "DESIGN.md §4 E1/E2, §5 C15",
    "bounded-exhaustive enumeration over documents/values with HTML, Unicode and control characters x EscapeHTML x indent strings; byte-level oracles and a test-deletion differential",
    "Every successful output (Apply under both escape settings; MergePatch, MergeMergePatches, CreateMergePatch) must be accepted by the independent reader, be UTF-8 given UTF-8 input and equal the reference value; escape on => none of the five characters raw; off => no escape not already spelled in the inputs; ApplyIndent equals the independently re-indented Apply output for 3 indents; deleting passing test operations leaves the bytes identical.",
-   T+"Byte-identity clauses quantify over documents spelled as the encoder spells them."),
+   T+"Byte-identity clauses quantify over documents spelled as the encoder spells them. Size sweep: string documents of every length 0..130 and around 256..4096 to depth 2."),
  "C16": ("scanx+bytex", "DESIGN.md §4 E3, §5 C16",
    "reachability over the synchronous product of the real scanner automaton with a reference pushdown recogniser (all 256 bytes per state), plus exhaustive short strings into codec functions and entry points",
    "The library's private scanner is cloned and single-stepped (observation file injected by overlay) in lock-step with a reference recogniser; BFS over the product with stacks to depth 4 compares end-of-input acceptance in every reachable state: language equality for inputs of every length at that nesting. All strings over 33 byte classes up to length 5/6 whose proper prefixes are viable test Valid/Compact/Indent/Unmarshal/UnmarshalWithKeys; accepted strings (with whitespace around) and all 16-symbol strings up to 4/5 go to every public entry point; nesting at 10000/10001 levels.",
-   T+"Bytes >= 0x80 are treated as string characters without UTF-8 validation (the grammar applied to bytes, as the standard library does). Nesting between 5 and 9998 levels is covered by the stack-top-only argument, not by enumeration."),
+   T+"Bytes >= 0x80 are treated as string characters without UTF-8 validation (the grammar applied to bytes, as the standard library does). Nesting between 5 and 9998 levels is covered by the stack-top-only argument, not by enumeration. Also: string literals of every length 0..130 and around 256/1024/4096 with one special byte at the start/middle/end into codec functions and entry points; and buffer histories - one caller buffer per size 16..70000 handed to each entry point well-formed, then overwritten in place with an ill-formed text of equal length, then well-formed again."),
  "C18": ("seqx", "DESIGN.md §4 E1, §5 C18",
    "C01's enumeration on the legacy root package (built as a module through an overlay go.mod), restricted to the stated domain",
    "Sequences the reference evaluates successfully (without add '' / copy from '') must succeed with a structurally equal document; sequences whose first inapplicable operation is a failed test, a remove/move of an absent target or an out-of-range index must fail with no document; other failures are outside the domain.",
-   T+"The legacy package's options are package variables; explored one setting per phase."),
+   T+"The legacy package's options are package variables; explored one setting per phase. Size sweeps as C01 (string documents depth 2, width/length documents depth 3), inside the legacy domain."),
  "C19": ("mergex", "DESIGN.md §4 E2, §5 C19",
    "the merge engines on the legacy package within the stated domains",
    "Legacy MergePatch edges (object/array patches), CreateMergePatch pairs (float64-printable numbers), MergeMergePatches composition, Equal on object/array roots without escapes - all exhaustively over the same value families as the v5 checks.",
-   T+"Domains as stated in the property."),
+   T+"Domains as stated in the property. Size sweeps (DESIGN section 3): the merge clusters (see C02/C03/C06/C07) through the four legacy functions, and float64 neighbours."),
  "C09": ("histx", "DESIGN.md §4 E5, §5 C09",
    "explicit-state breadth-first search over call histories on the real code, with every sync.Pool answer and every map iteration order an explorer-owned choice; state = dump of all process-wide library state; oracle = outcome equals the solo outcome, inputs unchanged",
    "All histories of up to 3 calls (default pool answers and map orders) and of up to 2 calls with one deviation (thorough: 4/0, 3/1, 2/2) from a menu of 55 exported-API calls over ONE shared set of decoded Patch values and input buffers (successes, failures, malformed inputs, both packages), built against a shim of the sync package so that which pooled decoder/encoder/scanner object a Get returns (most recent, any other, or a fresh one) and the order of every map iteration are enumerated within a deviation budget. States are merged on a generic dump of every package-level variable of the library packages (incl. every private field of every recycled object); every transition is judged: same error text / same bytes (Apply, ApplyIndent, CreateMergePatch, Equal) / same JSON value as the call made alone in a brand-new process (one subprocess per menu entry), no shared buffer, Patch or ApplyOptions value changed, results returned earlier still hold their bytes, and a caller overwriting a returned slice does not change the next call.",
-   T+"Closure of the state space is not reached with the exact dump (recycled objects remember their last input), so the claim is bounded by depth; the dump omits slice capacity and elements beyond len. Only exported functions are driven."),
+   T+"Closure of the state space is not reached with the exact dump (recycled objects remember their last input), so the claim is bounded by depth; the dump omits slice capacity and elements beyond len. Only exported functions are driven. The menu shares ONE ApplyOptions value (limit 40, AllowMissingPathOnRemove on) between five calls incl. a failing move, and carries v5 and legacy patches with values beyond 1 KiB that later operations walk into."),
  "C10": ("schedx", "DESIGN.md §4 E6, §5 C10",
    "stateless depth-first exploration of every schedule of 2-3 goroutine harnesses up to a preemption bound under a controlled scheduler on the real code (sync shim + injected statement points), plus a free-running race-detector pass over the same bodies",
    "Every unordered pair of 11 exported-API calls (and 3-goroutine scenarios) on ONE shared Patch and shared input slices, with cold and warm type caches, is run under a cooperative scheduler that owns every sync.Pool/Map/WaitGroup operation of the codec (configuration A) and additionally every statement boundary of the functions touching them, an atomic, or a package-level variable some function writes (configuration B); all schedules within the preemption bound are enumerated (Pool.Get answers share the budget), each complete schedule judged: every call returns its solo outcome, inputs and Patch unchanged, no panic, no deadlock. Replays are deterministic (map iteration fixed at build time; the default schedule is run twice). The 'no data race' clause is decided by the Go race detector on the same bodies running freely over a mutex-guarded global pool (so goroutines really exchange pooled objects).",
@@ -86,7 +86,7 @@ CHECKS = {
  "C20": ("cmdx", "DESIGN.md §4 E7, §5 C20",
    "exhaustive enumeration of -p argument lists (order, repetition) over a patch-file menu x stdin documents, each run as a real process of the binary built from the working tree; byte-exact comparison with the library fold and value comparison with the reference fold",
    "Every list of 0..2 (thorough 3) patch files over a 12-file menu (valid non-commuting patches, one applicable only after another, failing test, malformed, unknown op, missing file, directory, empty, empty patch, root-replacing) x 6 stdin documents is executed with both command binaries (v5 cmd, legacy cmd). Success: stdout byte-identical to folding the library's Apply over the files in command-line order, exit 0, value equal to the reference fold. Any unreadable/undecodable/inapplicable patch: empty stdout, non-empty stderr, non-zero exit.",
-   T+"The expected bytes come from the library linked into the harness (same tree). With no -p the command echoes stdin, which is what folding zero patches yields."),
+   T+"The expected bytes come from the library linked into the harness (same tree). With no -p the command echoes stdin, which is what folding zero patches yields. Also: lists of 10 and 33 files; a failing / malformed / missing file as the 255th, 256th, 257th, 512th, 513th option; stdin delivered in pieces (each piece written only after the command drained the pipe, so its reads return short) cut at 1, n/2, n-1 and around 4096..65536."),
 }
 
 NOT_YET = {}
